@@ -23,14 +23,19 @@ RULE = ("shapes (2,3,3), (3,2,3,2), (2,3,3,2), (3,2,2,3), (2,2,2,2), (3,3,3), (2
         "data (one entry changed by 1) and NEARLY symmetric float data (symmetric integers >= 1 with single entries moved by "
         "2^-20, i.e. inside numpy's allclose tolerance); both versions; with/without details; every symmetrised result must pass "
         "both versions of the symmetry test; non-trivial = data not symmetric in the groups or the group is a proper subset")
-CORRESPONDENCE_ONLY = ["tensor.symmetrize new version = spec_sym", "tensor.symmetrize old version = spec_sym",
-                       "tensor.issymmetric new/old version = spec_issym", "spec_sym result is symmetric / idempotent (evaluated per case, statement kept as C15_result_symmetric_stmt)",
-                       "ktensor.symmetrize: identical factors (then symmetric by theorem C15_kruskal_sym), tensor preserved when the input was symmetric"]
+CORRESPONDENCE_ONLY = ["tensor.symmetrize OLD version (explicit average over all combinations of mode rearrangements + max-fix): the transliteration "
+                       "impl_sym_old is compared EXACTLY with spec_sym on every generated input (statement kept as C15_sym_old_stmt)",
+                       "ktensor.symmetrize: identical factors and symmetry of the denoted array evaluated on pyttb's result (then symmetric by "
+                       "theorem C15_kruskal_sym); a symmetric input (identical factors, weights of either sign) keeps its value: evaluated per case",
+                       "the tabulate/den round trip between groups in the executable instances (q_sym_new_d) is Np.Array.den_tabulate, not restated"]
 ASSUMPTIONS = ["the average is taken in exact rational arithmetic; pyttb's float result must lie within 1e-9 relative",
-               "old-version symmetrize's final max-fix is the identity on an exactly symmetric array (not modelled separately)"]
-EXPLANATION = ("Theorems: adjacent transpositions generate all rearrangements; symmetrising fixes symmetric tensors; the boolean "
-               "test is exact; Kruskal tensors with identical factors are symmetric. The two pyttb algorithms are tied to the spec by "
-               "the correspondence stream.")
+               "old-version symmetrize's max-fix is modelled with an exact max; on an exactly symmetric average it is the identity"]
+EXPLANATION = ("Theorems (all shapes, groups, values of a commutative ring; characteristic 0 where an average is inverted): rearranging a list "
+               "permutes its rearrangements (orbit argument) => the average is symmetric in every group and symmetrising is idempotent; "
+               "the boolean test (adjacent exchanges, in-bounds) <=> invariance under every within-group rearrangement; pyttb's NEW "
+               "symmetrize (class average incl. the short-cut) = spec at every in-bounds subscript (orbit counting); NEW and OLD "
+               "issymmetric = the spec test; Kruskal tensors with identical factors are symmetric. All four transliterations are "
+               "additionally executed and compared exactly with the spec on every generated input, and pyttb's results with the spec.")
 
 
 # ----------------------------------------------------------------------------------------------------------------
